@@ -139,9 +139,17 @@ def _js(o):
 
 
 class _Names:
-    def __init__(self, names):
+    def __init__(self, names, fscale=1):
         self.names = names
         self.index = {n: i for i, n in enumerate(names)}
+        self.fscale = fscale      # float cases: every float f stands for the integer f * fscale of the model
+
+
+def _unfloat(f, nm):
+    x = f * nm.fscale
+    if x != int(x):
+        raise TypeError(f"float {f!r} is not a multiple of 1/{nm.fscale}")
+    return int(x)
 
 
 def _slots(o, nm):
@@ -157,6 +165,8 @@ def _slots(o, nm):
         return {"l": [_slots(x, nm) for x in o]}
     if type(o) is int or isinstance(o, str):
         return o
+    if type(o) is float:
+        return _unfloat(o, nm)
     raise TypeError(f"value {o!r} has no model counterpart")
 
 
@@ -186,20 +196,70 @@ def _enc_value(v, nm):
 
 
 def _dec_value(j, nm):
+    if "v" in j:
+        return _dec_value(j["v"], nm)
+    if "h" in j:
+        return ("<histogram>", j["h"]["edges"])
     d = _unslots(j["d"], nm)
     return (d, _unslots(j["c"], nm)) if "c" in j and j["c"] is not None else d
 
 
-def _value(j):
-    """a flow value of the case -> Python"""
+def _scaled(d, S):
+    if isinstance(d, tuple):
+        return tuple(_scaled(x, S) for x in d)
+    return d / S if type(d) is int else d
+
+
+def _value(j, S=1):
+    """a flow value of the case -> Python (in a float case the data are coordinates: divided by S)"""
     d = _py(j["d"])
+    if S > 1:
+        d = _scaled(d, S)
     return (d, _py(j["c"])) if j.get("c") is not None else d
 
 
-def _enc_bins(bins, nm):
+def _edges_py(edges, S=1):
+    if S == 1:
+        return copy.deepcopy(edges)
+    if edges and isinstance(edges[0], list):
+        return [[e / S for e in a] for a in edges]
+    return [e / S for e in edges]
+
+
+def _enc_edges(edges, nm):
+    if edges and isinstance(edges[0], (list, tuple)):
+        return [[_slots(e, nm) for e in a] for a in edges]
+    return [_slots(e, nm) for e in edges]
+
+
+def _stage_value(j):
+    """a value of a stage's extra flow: a plain value or a synthetic histogram"""
+    if "h" in j:
+        from lena.structures import histogram
+        h = histogram(copy.deepcopy(j["h"]["edges"]), _bins_py(j["h"]["bins"]))
+        return (h, _py(j["c"])) if j.get("c") is not None else h
+    return _value(j)
+
+
+def _bins_py(b):
+    if isinstance(b, list):
+        return [_bins_py(x) for x in b]
+    return _value(b)
+
+
+def _bins_values(b):
+    if isinstance(b, list):
+        for x in b:
+            for v in _bins_values(x):
+                yield v
+    else:
+        yield b
+
+
+def _enc_bins(bins, nm, fval=False):
     if isinstance(bins, list):
-        return [_enc_bins(b, nm) for b in bins]
-    return _enc_value(bins, nm)
+        return [_enc_bins(b, nm, fval) for b in bins]
+    return _enc_fval(bins, nm) if fval else _enc_value(bins, nm)
 
 
 def _dec_bins(j, nm):
@@ -239,15 +299,26 @@ def _names(case):
             _strings(_py(v["c"]), acc)
     _step_strings(case["spec"]["pre"] + case["spec"]["post"], acc)
     _strings(_argvar_context(case["argvar"]), acc)
+    inn = case.get("inner")
+    if inn:
+        _step_strings(inn["spec"]["pre"] + inn["spec"]["post"], acc)
+        _strings(_argvar_context(inn["argvar"]), acc)
     for st in ("iter", "map"):
         s = case.get(st)
         if s:
             for v in s["pre"] + s["post"]:
                 if v.get("c") is not None:
                     _strings(_py(v["c"]), acc)
+                if "h" in v:
+                    for b in _bins_values(v["h"]["bins"]):
+                        if b.get("c") is not None:
+                            _strings(_py(b["c"]), acc)
             if st == "map":
                 _step_strings(s["steps"], acc)
-    return _Names(sorted(acc))
+            ces = s.get("ces") or {}
+            for nme in ces.get("names") or []:
+                acc.add(nme)
+    return _Names(sorted(acc), case.get("fscale", 1))
 
 
 # ----------------------------------------------------------------------------------------
@@ -299,8 +370,8 @@ class _CallStep(object):
         k = s["k"]
         data, ctx = _split(value)
         if k == "scale":
-            if type(data) is not int:
-                raise TypeError("scale needs an int")
+            if type(data) not in (int, float):
+                raise TypeError("scale needs a number")
             return (data * s["x"], ctx)
         if k == "proj":
             return (data[s["i"]], ctx)
@@ -367,12 +438,12 @@ class _Acc(object):
 
     def fill(self, value):
         data, ctx = _split(value)
-        if type(data) is int:
+        if type(data) in (int, float):
             x = data
         elif isinstance(data, (tuple, list)):
             x = 0
             for c in data:
-                if type(c) is not int:
+                if type(c) not in (int, float):
                     raise TypeError("cannot add")
                 x += c
         else:
@@ -408,6 +479,19 @@ class _Acc(object):
             raise AssertionError(k)
 
 
+def _make_cell_analysis(case, bare_acc=False):
+    """the analysis that is split: `pre* acc post*`, or for a two-level split
+    `FillComputeSeq(SplitIntoBins(inner analysis, inner variable, inner edges), IterateBins(select_bins))`"""
+    inn = case.get("inner")
+    if not inn:
+        return _make_analysis(case["spec"], bare_acc)
+    import lena.core
+    from lena.structures import SplitIntoBins, IterateBins
+    isib = SplitIntoBins(_make_analysis(inn["spec"]), _make_argvar(inn["argvar"]),
+                         _edges_py(inn["edges"], case.get("fscale", 1)))
+    return lena.core.FillComputeSeq(isib, IterateBins(select_bins=_sel_fn(inn["sel"], False)))
+
+
 def _make_analysis(spec, bare_acc=False):
     import lena.core
     acc = _Acc(spec["acc"])
@@ -417,10 +501,37 @@ def _make_analysis(spec, bare_acc=False):
     return lena.core.FillComputeSeq(*els)
 
 
+def _make_ces(cfg):
+    """the `create_edges_str` argument of IterateBins"""
+    import functools
+    from lena.structures import cell_to_string
+    k = (cfg or {"k": "default"})["k"]
+    if k == "default":
+        return None
+    if k == "bad":
+        return 1
+    if k == "const":
+        s = cfg["s"]
+        return lambda edges, var_context=None: s
+    kw = {"coord_fmt": cfg.get("pre", "") + "{}" + cfg.get("mid1", "_lte_") + "{}" + cfg.get("mid2", "_lt_") + "{}"
+          + cfg.get("post", ""), "coord_join": cfg.get("join", "_"), "reverse": bool(cfg.get("reverse", False))}
+    if cfg.get("names") is not None:
+        kw["coord_names"] = list(cfg["names"])
+    return functools.partial(cell_to_string, **kw)
+
+
+def _sel_arg(sel, on_value):
+    if sel == "default":
+        return None
+    if sel == "bad":
+        return 1
+    return _sel_fn(sel, on_value)
+
+
 def _sel_fn(sel, on_value):
     if sel == "all":
         return lambda v: True
-    if sel == "none":
+    if sel in ("none", "default"):          # default: bins that hold histograms (never, in these cases)
         return lambda v: False
     if on_value:
         return lambda v: type(_split(v)[0]) is int
@@ -443,11 +554,20 @@ def _acc_of(cell):
     return cell if isinstance(cell, _Acc) else cell._fill_compute
 
 
+def _acc_state(a, nm):
+    if isinstance(a, _Acc):
+        return {"sum": _slots(a.sum, nm), "count": a.count, "stored": [_enc_value(v, nm) for v in a.stored],
+                "last": _slots(a.context, nm)}
+    # the inner SplitIntoBins of a two-level split
+    return {"cells": [[list(i), _acc_state(_acc_of(c), nm)] for i, c in _iter_cells(a.bins)],
+            "cur": _slots(a._cur_context, nm)}
+
+
 def _enc_fval(o, nm):
     from lena.structures import histogram
     data, ctx = (o[0], o[1]) if _has_context(o) else (o, None)
     if isinstance(data, histogram):
-        return {"h": {"edges": copy.deepcopy(data.edges), "bins": _enc_bins(data.bins, nm)},
+        return {"h": {"edges": _enc_edges(data.edges, nm), "bins": _enc_bins(data.bins, nm)},
                 "c": None if ctx is None else _slots(ctx, nm)}
     return {"v": _enc_value(o, nm)}
 
@@ -502,38 +622,32 @@ def _run_stage(el, inputs, nm):
     return {"out": outs, "fin": fin, "src": src, "fin_src": fin_src, "alias": alias}
 
 
+def _map_seq_ok(st):
+    """is the `seq` argument of MapBins acceptable?  A tuple of elements is not: `MapBins.__init__` hands it to
+    `Sequence(seq)`, which (contrary to its docstring) does not unpack a single tuple argument."""
+    return bool(st.get("seq_ok", True)) and st.get("seq_form") != "tuple"
+
+
+def _map_seq(st, steps):
+    import lena.core
+    if not st.get("seq_ok", True):
+        return 1
+    if st.get("seq_form") == "tuple":
+        return tuple(steps)
+    if st.get("seq_form") == "element" and len(steps) == 1:
+        return steps[0]                      # a single element: used as it is, or wrapped in a Sequence
+    return lena.core.Sequence(*steps)
+
+
 def _stage_inputs(st, hists):
-    pre = [_value(v) for v in st["pre"]]
-    post = [_value(v) for v in st["post"]]
+    pre = [_stage_value(v) for v in st["pre"]]
+    post = [_stage_value(v) for v in st["post"]]
     hs = [copy.deepcopy(h) if st.get("bare") else (copy.deepcopy(h), copy.deepcopy(c)) for (h, c) in hists]
     return pre + hs + post
 
 
-def run_impl(case):
-    import lena.core
-    from lena.structures import SplitIntoBins, IterateBins, MapBins, histogram
-    nm = _names(case)
-    edges = copy.deepcopy(case["edges"])
-    seq = _make_analysis(case["spec"], case.get("bare_acc", False)) if case.get("seq_ok", True) else lena.core.Sequence()
-    av = _make_argvar(case["argvar"]) if case.get("argvar_ok", True) else (lambda d: d)
-    try:
-        sib = SplitIntoBins(seq, av, edges)
-    except Exception as e:
-        return {"init": exc_name(e)}
-    flow = [_value(v) for v in case["flow"]]
-    for k, v in enumerate(flow):
-        try:
-            sib.fill(v)
-        except Exception as e:
-            return {"fill": {"at": k, "e": exc_name(e)}}
-    res = {}
-    res["cells"] = []
-    for idx, cell in _iter_cells(sib.bins):
-        a = _acc_of(cell)
-        res["cells"].append([list(idx), {"sum": a.sum, "count": a.count,
-                                         "stored": [_enc_value(v, nm) for v in a.stored],
-                                         "last": _slots(a.context, nm)}])
-    res["cur"] = _slots(sib._cur_context, nm)
+def _drain_compute(sib, nm, keep, fval=False):
+    from lena.structures import histogram
     outs, fin, hists = [], None, []
     gen = sib.compute()
     while True:
@@ -547,25 +661,69 @@ def run_impl(case):
         hist, ctx = o
         if not isinstance(hist, histogram):
             raise AssertionError("compute() did not yield a histogram")
-        outs.append({"edges": copy.deepcopy(hist.edges), "bins": _enc_bins(hist.bins, nm), "c": _slots(ctx, nm)})
-        hists.append(copy.deepcopy((hist, ctx)))
-    res["compute"] = {"out": outs, "fin": fin}
+        outs.append({"edges": _enc_edges(hist.edges, nm), "bins": _enc_bins(hist.bins, nm, fval),
+                     "c": _slots(ctx, nm)})
+        if keep:
+            hists.append(copy.deepcopy((hist, ctx)))
+    return {"out": outs, "fin": fin}, hists
+
+
+def run_impl(case):
+    import lena.core
+    from lena.structures import SplitIntoBins, IterateBins, MapBins
+    nm = _names(case)
+    S = case.get("fscale", 1)
+    edges = _edges_py(case["edges"], S)
+    seq = _make_cell_analysis(case, case.get("bare_acc", False)) if case.get("seq_ok", True) else lena.core.Sequence()
+    av = _make_argvar(case["argvar"]) if case.get("argvar_ok", True) else (lambda d: d)
+    try:
+        sib = SplitIntoBins(seq, av, edges)
+    except Exception as e:
+        return {"init": exc_name(e)}
+    flow = [_value(v, S) for v in case["flow"]]
+    for k, v in enumerate(flow):
+        try:
+            sib.fill(v)
+        except Exception as e:
+            return {"fill": {"at": k, "e": exc_name(e)}}
+    res = {}
+    res["cells"] = [[list(idx), _acc_state(_acc_of(cell), nm)] for idx, cell in _iter_cells(sib.bins)]
+    res["cur"] = _slots(sib._cur_context, nm)
+    two = bool(case.get("inner"))            # two-level: the cells hold what the inner IterateBins yields
+    res["compute"], hists = _drain_compute(sib, nm, True, two)
+    # a second compute() on the same object
+    res["compute2"] = _drain_compute(sib, nm, False, two)[0] if case.get("twice") else None
+    # cells that hold histograms (an inner IterateBins that selected nothing) are outside the second stage
+    from lena.structures import histogram
+    hists = [(h, c) for (h, c) in hists
+             if not any(isinstance(_split(b)[0], histogram) for _, b in _iter_cells(h.bins))]
     res["iter"] = res["map"] = None
     st = case.get("iter")
     if st:
-        inputs = _stage_inputs(st, hists)
-        enc_in = [_enc_fval(v, nm) for v in inputs]
-        r = _run_stage(IterateBins(select_bins=_sel_fn(st["sel"], False)), inputs, nm)
-        r["in"] = enc_in
-        res["iter"] = r
+        try:
+            el = IterateBins(create_edges_str=_make_ces(st.get("ces")), select_bins=_sel_arg(st["sel"], False))
+        except Exception as e:
+            el, res["iter"] = None, {"init": exc_name(e)}
+        if el is not None:
+            inputs = _stage_inputs(st, hists)
+            enc_in = [_enc_fval(v, nm) for v in inputs]
+            r = _run_stage(el, inputs, nm)
+            r["in"] = enc_in
+            res["iter"] = r
     st = case.get("map")
     if st:
-        inputs = _stage_inputs(st, hists)
-        enc_in = [_enc_fval(v, nm) for v in inputs]
-        mseq = lena.core.Sequence(*[_make_step(s) for s in st["steps"]])
-        r = _run_stage(MapBins(mseq, select_bins=_sel_fn(st["sel"], True), drop_bins_context=st["drop"]), inputs, nm)
-        r["in"] = enc_in
-        res["map"] = r
+        steps = [_make_step(s) for s in st["steps"]]
+        mseq = _map_seq(st, steps)
+        try:
+            el = MapBins(mseq, select_bins=_sel_arg(st["sel"], True), drop_bins_context=st["drop"])
+        except Exception as e:
+            el, res["map"] = None, {"init": exc_name(e)}
+        if el is not None:
+            inputs = _stage_inputs(st, hists)
+            enc_in = [_enc_fval(v, nm) for v in inputs]
+            r = _run_stage(el, inputs, nm)
+            r["in"] = enc_in
+            res["map"] = r
     return res
 
 
@@ -583,24 +741,45 @@ def _step_req(s, nm):
     return s
 
 
+def _entry_req(v, nm):
+    if "h" in v:
+        return {"h": {"edges": v["h"]["edges"], "bins": _enc_bins(_bins_py(v["h"]["bins"]), nm)},
+                "c": None if v.get("c") is None else _slots(_py(v["c"]), nm)}
+    return _enc_value(_value(v), nm)
+
+
 def _stage_req(st, nm, steps=False):
     r = {"sel": st["sel"], "bare": bool(st.get("bare")),
-         "pre": [_enc_value(_value(v), nm) for v in st["pre"]],
-         "post": [_enc_value(_value(v), nm) for v in st["post"]]}
+         "pre": [_entry_req(v, nm) for v in st["pre"]],
+         "post": [_entry_req(v, nm) for v in st["post"]]}
     if steps:
         r["steps"] = [_step_req(s, nm) for s in st["steps"]]
         r["drop"] = bool(st["drop"])
+        r["seq_ok"] = _map_seq_ok(st)
+    else:
+        r["ces"] = st.get("ces") or {"k": "default"}
     return r
+
+
+def _spec_req(spec, nm):
+    return {"pre": [_step_req(s, nm) for s in spec["pre"]], "acc": spec["acc"],
+            "post": [_step_req(s, nm) for s in spec["post"]]}
 
 
 def model_requests(case):
     nm = _names(case)
+    S = case.get("fscale", 1)
+    inn = case.get("inner")
     req = {"op": "case", "names": nm.names, "edges": case["edges"],
            "seq_ok": bool(case.get("seq_ok", True)), "argvar_ok": bool(case.get("argvar_ok", True)),
            "getter": _argvar_getter_spec(case["argvar"]), "vc": _slots(_argvar_context(case["argvar"]), nm),
-           "spec": {"pre": [_step_req(s, nm) for s in case["spec"]["pre"]], "acc": case["spec"]["acc"],
-                    "post": [_step_req(s, nm) for s in case["spec"]["post"]]},
-           "flow": [_enc_value(_value(v), nm) for v in case["flow"]],
+           "spec": _spec_req(case["spec"], nm),
+           "inner": None if not inn else {
+               "edges": inn["edges"], "getter": _argvar_getter_spec(inn["argvar"]),
+               "vc": _slots(_argvar_context(inn["argvar"]), nm), "spec": _spec_req(inn["spec"], nm),
+               "sel": inn["sel"]},
+           "twice": bool(case.get("twice")),
+           "flow": [_enc_value(_value(v, S), nm) for v in case["flow"]],
            "iter": _stage_req(case["iter"], nm) if case.get("iter") else None,
            "map": _stage_req(case["map"], nm, True) if case.get("map") else None}
     return [req]
@@ -615,7 +794,56 @@ def _has_unmodelled(o):
 
 
 def _strip(st):
-    return None if st is None else {"out": st["out"], "fin": st["fin"]}
+    if st is None or "init" in st:
+        return st
+    return {"out": st["out"], "fin": st["fin"]}
+
+
+def _ref_cell_or_none(case, v, nested, axes):
+    try:
+        return _cell_of(_ref_coord(case, _split(v)[0], nested, len(axes)), axes)
+    except _Undefined:
+        return None
+
+
+def _compare_spec(case, res, sp, nm):
+    """the specification vocabulary of Props/C11.lean (route, subflow, insideFlow, ctxAfter, lexicographic order,
+    PathIn, InCell, IsCellEdges, NotNested1, cellAt, cellOutput) evaluated by the driver, against an independent
+    Python reference (half-open interval test, itertools.product)"""
+    S = case.get("fscale", 1)
+    axes, nested = _axes(case["edges"])           # the integer (scaled) edges, as the model sees them
+    dims = [len(a) - 1 for a in axes]
+    paths = [list(p) for p in itertools.product(*[range(d) for d in dims])]
+    vals = [_value(j) for j in case["flow"]]      # unscaled: integers, like the model's
+    cells = [_ref_cell_or_none(case, v, nested, axes) for v in vals]
+    enc = [_enc_value(v, nm) for v in vals]
+    if sp["paths"] != paths:
+        return f"binIndices {sp['paths']} differ from itertools.product {paths}"
+    for k in ("lex", "pathin", "cellat"):
+        if sp[k] is not True:
+            return f"spec check {k} is {sp[k]}"
+    if sp["nn1"] != (not (nested and len(axes) == 1)):
+        return f"notNested1B = {sp['nn1']} for edges {case['edges']}"
+    want = [{"p": None if c is None else list(c)} for c in cells]
+    if sp["route"] != want:
+        return f"route {sp['route']} differs from the half-open reference {want}"
+    want = [[enc[i] for i, c in enumerate(cells) if c is not None and list(c) == p] for p in paths]
+    if sp["sub"] != want:
+        return f"subflow {sp['sub']} differs from the reference {want}"
+    want = [enc[i] for i, c in enumerate(cells) if c is not None]
+    if sp["inside"] != want:
+        return f"insideFlow differs from the reference"
+    last = [v for v, c in zip(vals, cells) if c is not None]
+    want = _slots(_split(last[-1])[1] if last else {}, nm)
+    if sp["ctxafter"] != want:
+        return f"ctxAfter {sp['ctxafter']} differs from the context of the last inside value {want}"
+    want = [([] if c is None else [list(c)]) for c in cells]
+    if sp["incell"] != want:
+        return f"inCellB {sp['incell']} differs from the reference {want}"
+    want = [{"ok": True, "ce": [[axes[k][i], axes[k][i + 1]] for k, i in enumerate(p)]} for p in paths]
+    if sp["celledges"] != want:
+        return f"cellEdges / isCellEdgesB {sp['celledges']} differ from the reference {want}"
+    return None
 
 
 def compare(case, res, replies):
@@ -628,13 +856,20 @@ def compare(case, res, replies):
         return None if res.get("init") == m.get("init") else f"__init__: impl {res.get('init')} vs model {m.get('init')}"
     if "fill" in res or "fill" in m:
         return None if res.get("fill") == m.get("fill") else f"fill: impl {res.get('fill')} vs model {m.get('fill')}"
-    for k in ("cells", "cur", "compute"):
+    for k in ("cells", "cur", "compute", "compute2"):
         if res[k] != m[k]:
             return f"{k}: impl {str(res[k])[:700]} vs model {str(m[k])[:700]}"
-    for k in ("iter", "map"):
-        if _strip(res[k]) != m[k]:
-            return f"{k}: impl {str(_strip(res[k]))[:700]} vs model {str(m[k])[:700]}"
-    return None
+    mi = m["iter"]
+    if mi is not None and "once" in mi:
+        if mi["once"] is not True:
+            return "iterateBinsOne differs from traceMapM cellOutput over the cells (iterate_bins_once)"
+        mi = {"out": mi["out"], "fin": mi["fin"]}
+    if _strip(res["iter"]) != mi:
+        return f"iter: impl {str(_strip(res['iter']))[:700]} vs model {str(mi)[:700]}"
+    if _strip(res["map"]) != m["map"]:
+        return f"map: impl {str(_strip(res['map']))[:700]} vs model {str(m['map'])[:700]}"
+    nm = _names(case)
+    return _compare_spec(case, res, m["spec"], nm)
 
 
 # ----------------------------------------------------------------------------------------
@@ -682,10 +917,10 @@ def _ref_coord(case, data, nested, naxes):
     except Exception:
         raise _Undefined("getter raised")
     if nested:
-        if not isinstance(x, (tuple, list)) or len(x) != naxes or not all(type(c) is int for c in x):
+        if not isinstance(x, (tuple, list)) or len(x) != naxes or not all(type(c) in (int, float) for c in x):
             raise _Undefined("coordinate of the wrong form")
         return tuple(x)
-    if type(x) is not int:
+    if type(x) not in (int, float):
         raise _Undefined("coordinate of the wrong form")
     return (x,)
 
@@ -702,22 +937,23 @@ def _nest(bins_flat, dims):
 
 def _reference_sib(case):
     """per cell: a private copy of the analysis, fed with that cell's sub-flow in arrival order"""
-    edges = case["edges"]
+    S = case.get("fscale", 1)
+    edges = _edges_py(case["edges"], S)
     axes, nested = _axes(edges)
     dims = [len(a) - 1 for a in axes]
     cells = list(itertools.product(*[range(d) for d in dims]))
     sub = {c: [] for c in cells}
     last_inside = None
     for j in case["flow"]:
-        v = _value(j)
+        v = _value(j, S)
         data, _ = _split(v)
         c = _cell_of(_ref_coord(case, data, nested, len(axes)), axes)
         if c is not None:
             sub[c].append(v)
-            last_inside = _value(j)           # a pristine copy: as the value arrived
+            last_inside = _value(j, S)        # a pristine copy: as the value arrived
     results, ends = [], []
     for c in cells:
-        an = _make_analysis(case["spec"])
+        an = _make_cell_analysis(case)
         try:
             for v in sub[c]:
                 an.fill(v)
@@ -763,7 +999,17 @@ def _ref_update_nested(key, d, other):
     d[key] = other
 
 
-def _ref_edges_str(cell_edges, var_context):
+def _ref_edges_str(cell_edges, var_context, cfg=None):
+    cfg = cfg or {"k": "default"}
+    if cfg["k"] == "const":
+        return cfg["s"]
+    if cfg["k"] == "opts" and cfg.get("names") is not None:
+        names = list(cfg["names"])
+        if len(names) != len(cell_edges):
+            raise _Undefined("number of names differs from the number of coordinates")
+        strs = [cfg.get("pre", "") + str(lo) + cfg.get("mid1", "_lte_") + str(n) + cfg.get("mid2", "_lt_") + str(hi)
+                + cfg.get("post", "") for (lo, hi), n in zip(cell_edges, names)]
+        return cfg.get("join", "_").join(reversed(strs) if cfg.get("reverse") else strs)
     if var_context is None:
         names = ["coord{}".format(i) for i in range(len(cell_edges))]
     elif not isinstance(var_context, dict):
@@ -779,6 +1025,10 @@ def _ref_edges_str(cell_edges, var_context):
         raise _Undefined("variable context without name")
     if len(names) != len(cell_edges):
         raise _Undefined("number of names differs from the number of coordinates")
+    if cfg["k"] == "opts":
+        strs = [cfg.get("pre", "") + str(lo) + cfg.get("mid1", "_lte_") + str(n) + cfg.get("mid2", "_lt_") + str(hi)
+                + cfg.get("post", "") for (lo, hi), n in zip(cell_edges, names)]
+        return cfg.get("join", "_").join(reversed(strs) if cfg.get("reverse") else strs)
     return "_".join("{}_lte_{}_lt_{}".format(lo, n, hi) for (lo, hi), n in zip(cell_edges, names))
 
 
@@ -836,7 +1086,8 @@ def _oracle_iter(case, st, cfg, nm):
                 d, c = _split(copy.deepcopy(cell))
                 ce = tuple((axes[k][ik], axes[k][ik + 1]) for k, ik in enumerate(idx))
                 _ref_update_nested("bins", c, copy.deepcopy(hctx))
-                _ref_update_nested("bin", c, {"edges": ce, "edges_str": _ref_edges_str(ce, hctx.get("variable"))})
+                _ref_update_nested("bin", c, {"edges": ce, "edges_str": _ref_edges_str(ce, hctx.get("variable"),
+                                                                                         cfg.get("ces"))})
                 expected.append({"v": _enc_value((d, c), nm)})
         except _Undefined:
             continue
@@ -952,18 +1203,18 @@ def oracle(case, res):
     for j, o in enumerate(outs[:n]):
         if o["edges"] != edges:
             return f"histogram {j} has edges {o['edges']} instead of {edges}"
-        exp = _enc_bins(ref["hists"][j], nm)
+        exp = _enc_bins(ref["hists"][j], nm, bool(case.get("inner")))
         if o["bins"] != exp:
             return (f"histogram {j} over edges {edges}: bins {_dec_bins(o['bins'], nm)} differ from the results of "
                     f"private per-cell analyses on the cells' sub-flows {ref['hists'][j]} (flow {case['flow']})")
         if ref["ctx"] is not None and o["c"] != _slots(ref["ctx"], nm):
             return (f"histogram {j}: context {_unslots(o['c'], nm)} is not the context of the last value inside the "
                     f"edges with the argument variable applied, {ref['ctx']}")
-    if res.get("iter"):
+    if res.get("iter") and "init" not in res["iter"]:
         msg = _oracle_iter(case, res["iter"], case["iter"], nm)
         if msg:
             return msg
-    if res.get("map"):
+    if res.get("map") and "init" not in res["map"]:
         msg = _oracle_map(case, res["map"], case["map"], nm)
         if msg:
             return msg
@@ -991,9 +1242,11 @@ _SETKEYS = [
 ]
 
 
-def _gen_step(rng, int_data, wild=False, where="pre"):
+def _gen_step(rng, int_data, wild=False, where="pre", flt=False):
     kinds = ["setkey", "setkey", "var", "dup"]
-    if int_data or wild:
+    if flt:
+        kinds += ["scale"] if int_data else []      # elements that test `type(data) is int` would see floats
+    elif int_data or wild:
         kinds += ["scale", "dropodd", "failon"]
     if not int_data or wild:
         kinds += ["proj"]
@@ -1024,10 +1277,10 @@ def _gen_step(rng, int_data, wild=False, where="pre"):
     return {"k": k}, int_data
 
 
-def _gen_steps(rng, n, int_data, wild, where="pre"):
+def _gen_steps(rng, n, int_data, wild, where="pre", flt=False):
     steps = []
     for _ in range(n):
-        s, int_data = _gen_step(rng, int_data, wild and rng.random() < 0.3, where)
+        s, int_data = _gen_step(rng, int_data, wild and rng.random() < 0.3, where, flt)
         steps.append(s)
     return steps, int_data
 
@@ -1051,6 +1304,168 @@ def _gen_plain(rng):
     if c is not None:
         v["c"] = c
     return v
+
+
+_CELLS = [{"d": 3}, {"d": 4, "c": {"a": 1}}, {"d": {"t": [1, 2]}, "c": {"bins": {"a": 1}}}, {"d": 0, "c": {}}]
+
+
+def _gen_hist(rng):
+    """a synthetic histogram for a stage's extra flow: regular, or with a missing cell (IndexError paths)"""
+    def cell():
+        return copy.deepcopy(rng.choice(_CELLS))
+    k = rng.random()
+    if k < 0.45:
+        edges = _gen_axis(rng, 3)
+        bins = [cell() for _ in range(len(edges) - 1)]
+    elif k < 0.8:
+        edges = [_gen_axis(rng, 2), _gen_axis(rng, 2)]
+        bins = [[cell() for _ in range(len(edges[1]) - 1)] for _ in range(len(edges[0]) - 1)]
+    elif k < 0.9:
+        edges = [[0, 1, 2], [0, 1]]
+        bins = [[cell()], []]                     # the cell (1, 0) is missing: LenaIndexError while iterating
+    else:
+        edges = [[0, 1, 2], [0, 1]]
+        bins = [[], [cell()]]                     # the example bin is missing
+    v = {"h": {"edges": edges, "bins": bins}}
+    c = _gen_ctx(rng)
+    if c is not None and rng.random() < 0.8:
+        v["c"] = c
+    return v
+
+
+def _gen_extra(rng):
+    return _gen_hist(rng) if rng.random() < 0.3 else _gen_plain(rng)
+
+
+def _gen_ces(rng, ndim):
+    r = rng.random()
+    if r < 0.7:
+        return {"k": "default"}
+    if r < 0.8:
+        return {"k": "const", "s": "cell"}
+    if r < 0.84:
+        return {"k": "bad"}
+    o = {"k": "opts", "join": rng.choice(["_", "__", ""]), "reverse": rng.random() < 0.5}
+    if rng.random() < 0.5:
+        o.update({"pre": rng.choice(["", "("]), "mid1": rng.choice(["<=", "_lte_"]), "mid2": rng.choice(["<", "_lt_"]),
+                  "post": rng.choice(["", ")"])})
+    if rng.random() < 0.6:
+        o["names"] = ["u", "v", "w"][:ndim if rng.random() < 0.85 else ndim + 1]
+    return o
+
+
+def _gen_stages(rng, case, res_int, wild, ndim, flt=False):
+    if rng.random() < 0.7:
+        case["iter"] = {"sel": rng.choice(["all"] * 16 + ["int", "none", "default", "bad"]), "bare": rng.random() < 0.15,
+                        "ces": {"k": "const", "s": "cell"} if flt else _gen_ces(rng, ndim),
+                        "pre": [_gen_extra(rng) for _ in range(rng.choice([0, 0, 1]))],
+                        "post": [_gen_extra(rng) for _ in range(rng.choice([0, 0, 1]))]}
+    if rng.random() < 0.7:
+        steps, _ = _gen_steps(rng, rng.choice([0, 1, 1, 2, 2]), res_int, wild, "map", flt)
+        case["map"] = {"steps": steps, "sel": rng.choice(["all"] * 16 + ["int", "none", "bad"]),
+                       "drop": rng.random() < 0.6, "bare": rng.random() < 0.1,
+                       "seq_ok": rng.random() > 0.03, "seq_form": rng.choice(["sequence"] * 6 + ["element"] * 3 + ["tuple"]),
+                       "pre": [_gen_extra(rng) for _ in range(rng.choice([0, 0, 1]))],
+                       "post": [_gen_extra(rng) for _ in range(rng.choice([0, 0, 1]))]}
+        if case["map"]["seq_form"] == "element" and (len(steps) != 1 or steps[0]["k"] == "count"):
+            # (a bare lena.flow.Count as `seq` gets the list [cell] as flow and calls next() on it: TypeError)
+            case["map"]["seq_form"] = "sequence"
+
+
+def _gen_spec(rng, int_data, wild, flt=False):
+    pre, int_data = _gen_steps(rng, rng.choice([0, 0, 1, 1, 2]), int_data, wild, "pre", flt)
+    acc = rng.choice(["sum", "sum", "store", "store", "store", "each", "each", "sumcount", "sumcount", "count",
+                      "failempty", "sumfail"])
+    res_int = acc in ("sum", "sumcount", "count", "failempty", "sumfail") or (acc == "each" and int_data)
+    post, res_int = _gen_steps(rng, rng.choice([0, 0, 1, 1, 2]), res_int, wild, "post", flt)
+    return {"pre": pre, "acc": acc, "post": post}, res_int
+
+
+def _gen_flow_ctx(rng, v):
+    c = _gen_ctx(rng)
+    if c is not None:
+        v["c"] = c
+    return v
+
+
+def _gen_two_level(rng, big):
+    """SplitIntoBins(FillComputeSeq(SplitIntoBins(analysis, inner variable, inner edges), IterateBins()), outer …):
+    the cells of the outer histograms carry context.bins of the inner split"""
+    do = 1 if rng.random() < 0.7 else 2
+    oedges = _gen_axis(rng, 3) if do == 1 else [_gen_axis(rng, 2), _gen_axis(rng, 2)]
+    oaxes = [oedges] if do == 1 else oedges
+    iedges = _gen_axis(rng, 3)
+    if do == 1:
+        argvar = {"kind": "var", "name": "x", "getter": {"k": "proj", "i": 0}, "type": rng.choice(["", "", "coordinate"]),
+                  "kw": {}}
+    else:
+        argvar = {"kind": "combine", "vars": [{"name": "xy"[k], "i": k, "type": ""} for k in range(2)],
+                  "kw": rng.choice([{}, {"name": "pt"}])}
+    iargvar = {"kind": "var", "name": "z", "getter": {"k": "proj", "i": do}, "type": rng.choice(["", "", "particle"]),
+               "kw": rng.choice([{}, {"unit": "mm"}])}
+    ispec, res_int = _gen_spec(rng, False, False)
+    flow = []
+    for _ in range(rng.randint(0, 12 if big else 7)):
+        comps = [rng.choice(a) if rng.random() < 0.4 else rng.randint(a[0] - 1, a[-1] + 1) for a in oaxes + [iedges]]
+        flow.append(_gen_flow_ctx(rng, {"d": {"t": comps}}))
+    case = {"edges": oedges, "seq_ok": True, "argvar_ok": True, "bare_acc": False, "argvar": argvar,
+            "spec": {"pre": [], "acc": "sum", "post": []},
+            "inner": {"edges": iedges, "argvar": iargvar, "spec": ispec,
+                      "sel": rng.choice(["all"] * 12 + ["int", "none"])},
+            "flow": flow, "iter": None, "map": None}
+    _gen_stages(rng, case, res_int, False, do)
+    if case["iter"]:
+        case["iter"]["sel"] = rng.choice(["all"] * 10 + ["int"])
+    return case
+
+
+def _gen_float(rng, big):
+    """coordinates and edges are multiples of 1/S: the real code computes with floats (the interpolation guess of
+    get_bin_on_value_1d, comparisons at the borders), the model with the integers S * x"""
+    S = rng.choice([2, 4, 8])
+    dim = 1 if rng.random() < 0.55 else 2
+    def axis(maxbins):
+        x = rng.randint(-3 * S, 2 * S)
+        arr = [x]
+        for _ in range(rng.randint(1, maxbins)):
+            x += rng.choice([1, 2, 3, S, S + 1, 2 * S])
+            arr.append(x)
+        return arr
+    edges = axis(5) if dim == 1 else [axis(3), axis(3)]
+    axes = [edges] if dim == 1 else edges
+    tuple_data = dim == 2 or rng.random() < 0.3
+    if not tuple_data:
+        argvar = {"kind": "var", "name": "x", "getter": {"k": "id"}, "type": rng.choice(["", "coordinate"]), "kw": {}}
+    elif dim == 1:
+        argvar = {"kind": "var", "name": "x", "getter": {"k": "proj", "i": 0}, "type": "", "kw": {}}
+    elif rng.random() < 0.3:
+        argvar = {"kind": "var", "name": "xy", "getter": {"k": "id"}, "type": "", "kw": {}}
+    else:
+        argvar = {"kind": "combine", "vars": [{"name": "xy"[k], "i": k, "type": ""} for k in range(2)], "kw": {}}
+    flow = []
+    for _ in range(rng.randint(0, 14 if big else 8)):
+        pt = []
+        for a in axes:
+            r = rng.random()
+            if r < 0.35:
+                pt.append(rng.choice(a))                       # exactly on an edge
+            elif r < 0.6:
+                pt.append(rng.choice(a) + rng.choice([-1, 1]))   # the nearest representable neighbours
+            else:
+                pt.append(rng.randint(a[0] - S, a[-1] + S))
+        d = {"t": pt} if tuple_data else pt[0]
+        flow.append(_gen_flow_ctx(rng, {"d": d}))
+    spec, res_int = _gen_spec(rng, not tuple_data, False, True)
+    case = {"edges": edges, "fscale": S, "seq_ok": True, "argvar_ok": True, "bare_acc": rng.random() < 0.3,
+            "argvar": argvar, "spec": spec, "flow": flow, "iter": None, "map": None}
+    _gen_stages(rng, case, res_int, False, dim, True)
+    for st in ("iter", "map"):
+        if case[st]:
+            if case[st]["sel"] == "int":        # `type(data) is int` would see floats
+                case[st]["sel"] = "all"
+            case[st]["pre"] = [v for v in case[st]["pre"] if "h" not in v]
+            case[st]["post"] = [v for v in case[st]["post"] if "h" not in v]
+    return case
 
 
 def _gen_random(rng, big):
@@ -1110,23 +1525,12 @@ def _gen_random(rng, big):
         if c is not None:
             v["c"] = c
         flow.append(v)
-    pre, int_data = _gen_steps(rng, rng.choice([0, 0, 1, 1, 2]), not tuple_data, wild)
-    acc = rng.choice(["sum", "sum", "store", "store", "store", "each", "each", "sumcount", "sumcount", "count",
-                      "failempty", "sumfail"])
-    res_int = acc in ("sum", "sumcount", "count", "failempty", "sumfail") or (acc == "each" and int_data)
-    post, res_int = _gen_steps(rng, rng.choice([0, 0, 1, 1, 2]), res_int, wild, "post")
+    spec, res_int = _gen_spec(rng, not tuple_data, wild)
     case = {"edges": edges, "seq_ok": True, "argvar_ok": True, "bare_acc": rng.random() < 0.3, "argvar": argvar,
-            "spec": {"pre": pre, "acc": acc, "post": post}, "flow": flow, "iter": None, "map": None}
-    if rng.random() < 0.7:
-        case["iter"] = {"sel": rng.choice(["all"] * 8 + ["int", "none"]), "bare": rng.random() < 0.15,
-                        "pre": [_gen_plain(rng) for _ in range(rng.choice([0, 0, 1]))],
-                        "post": [_gen_plain(rng) for _ in range(rng.choice([0, 0, 1]))]}
-    if rng.random() < 0.7:
-        steps, _ = _gen_steps(rng, rng.choice([0, 1, 1, 2, 2]), res_int, wild, "map")
-        case["map"] = {"steps": steps, "sel": rng.choice(["all"] * 8 + ["int", "none"]), "drop": rng.random() < 0.6,
-                       "bare": rng.random() < 0.1,
-                       "pre": [_gen_plain(rng) for _ in range(rng.choice([0, 0, 1]))],
-                       "post": [_gen_plain(rng) for _ in range(rng.choice([0, 0, 1]))]}
+            "spec": spec, "flow": flow, "iter": None, "map": None}
+    _gen_stages(rng, case, res_int, wild, len(axes))
+    if rng.random() < 0.25 and not any(st["k"] == "count" for st in spec["post"]):
+        case["twice"] = True                    # compute() a second time on the same object
     if rng.random() < 0.04:
         bad = rng.random()
         if bad < 0.3:
@@ -1161,14 +1565,38 @@ def _systematic(tier):
     return cases
 
 
+def _systematic_two_level(tier):
+    xvar = {"kind": "var", "name": "x", "getter": {"k": "proj", "i": 0}, "type": "", "kw": {}}
+    yvar = {"kind": "var", "name": "y", "getter": {"k": "proj", "i": 1}, "type": "", "kw": {}}
+    it = {"sel": "all", "bare": False, "ces": {"k": "default"}, "pre": [], "post": []}
+    pts = [(x, y) for x in range(-1, 6) for y in range(-1, 4)]
+    for n in range(0, 3 if tier == "thorough" else 2):
+        for flow in itertools.product(pts, repeat=n):
+            for acc in ("store", "each"):
+                yield {"edges": [0, 2, 4], "seq_ok": True, "argvar_ok": True, "bare_acc": False, "argvar": xvar,
+                       "spec": {"pre": [], "acc": "sum", "post": []},
+                       "inner": {"edges": [0, 2], "argvar": yvar, "spec": {"pre": [], "acc": acc, "post": []},
+                                 "sel": "all"},
+                       "flow": [{"d": {"t": list(p)}} for p in flow], "iter": it, "map": None}
+
+
 def gen_cases(ctx):
+    """a generator (the thorough scope is enumerated lazily)"""
     rng = ctx.rng
-    cases = _systematic(ctx.tier)
+    ctx.exhaustive = False
+    for c in _systematic(ctx.tier):
+        yield c
+    for c in _systematic_two_level(ctx.tier):
+        yield c
     n = 4000 if ctx.tier == "quick" else 60000
     for _ in range(n):
-        cases.append(_gen_random(rng, ctx.tier == "thorough"))
-    ctx.exhaustive = False
-    return cases
+        r = rng.random()
+        if r < 0.12:
+            yield _gen_two_level(rng, ctx.tier == "thorough")
+        elif r < 0.22:
+            yield _gen_float(rng, ctx.tier == "thorough")
+        else:
+            yield _gen_random(rng, ctx.tier == "thorough")
 
 
 # ----------------------------------------------------------------------------------------
